@@ -66,7 +66,9 @@ def _cte_body(sql, name):
 import cyshape
 
 SHAPES = {
-    "frame-cte-referenced-in-own-definition:bound-node-traversal": [("traversal-in-part-followed-by-with", {"rel-pattern-in-part-followed-by-with"})],
+    "frame-cte-referenced-in-own-definition:bound-node-traversal": [
+        ("undirected-step-between-carried-nodes-in-part-followed-by-with", {"undirected-step-in-pattern-that-uses-earlier-binding", "rel-pattern-in-part-followed-by-with"}),
+        ("traversal-in-part-followed-by-with", {"rel-pattern-in-part-followed-by-with"})],
     "frame-cte-referenced-in-own-definition:optional-match-left-join": [("optional-match-after-earlier-clause", {"optional-match-after-earlier-clause", "with"})],
     "frame-cte-referenced-in-own-definition:unwind-source": [("unwind-first-in-part-followed-by-with", {"unwind-first-in-part-followed-by-with"})],
     "frame-cte-referenced-in-own-definition:bound-node-expansion-seed": [("expansion-from-carried-node", {"varlen-uses-earlier-binding", "rel-pattern-in-part-followed-by-with"})],
@@ -75,8 +77,11 @@ SHAPES = {
     "frame-cte-undefined:never-defined": [("self-loop-pattern-after-leading-unwind", {"leading-unwind", "same-node-var-twice-after-earlier-clause"})],
     "frame-column-missing:sN.iN": [("unwind-then-optional-match", {"unwind", "optional-match-after-earlier-clause", "with"})],
     "unsatisfied-future:pattern-predicate-placeholder": [("pattern-predicate-in-with-where", {"pattern-predicate-in-with-where"})],
-    "binding-referenced-without-frame:edge": [("expansion-next-to-fixed-pattern", {"varlen", "rel-pattern"})],
+    "binding-referenced-without-frame:edge": [
+        ("labels-predicate-in-part-followed-by-with", {"labels-fn-in-where", "rel-pattern-in-part-followed-by-with"}),
+        ("expansion-next-to-fixed-pattern", {"varlen", "rel-pattern"})],
     "frame-cte-missing-from-from-clause:referenced-outside-definition": [
+        ("pattern-predicate-in-optional-match-with-comma-patterns", {"pattern-predicate-in-optional-match-with-comma-patterns"}),
         ("expansion-after-earlier-clause", {"varlen-after-earlier-clause"}),
         ("pattern-predicate", {"pattern-predicate"})],
     "frame-cte-referenced-in-own-definition:select-list-only": [
@@ -160,7 +165,7 @@ def classify(verdict, sql, op=""):
         # predicate's snapshot scope replaces) — it is deliberately not registered, so any non-ok outcome on it is a VIOLATION
         # (single-MATCH queries without WITH / UNWIND only: with further clauses the unchanged translator already fails in ways that fall
         # under the registered classes — path variable carried through WITH, predicate reading an earlier binding)
-        if need <= feats and not ("pattern-predicate" in need and "named-path-with-own-pattern-predicate" in feats and
+        if need <= feats and not (need == {"pattern-predicate"} and "named-path-with-own-pattern-predicate" in feats and
                                   not (feats & {"with", "unwind", "match-after-earlier-clause"})):
             return ss + ":" + shape
     return ss + ":unrecognised-query-shape"
@@ -177,6 +182,9 @@ def model_view(model):
 def judge(op, impl, model):
     if impl.startswith("panic"):
         return "reject harness-panic " + impl[:80]
+    if impl.startswith("ident-differs"):
+        # harness/identtie.go: the quoted identifiers of the SQL text are not the back-ticked identifiers of the statement tree
+        return "reject text-identifiers-differ-from-statement:quoted-identifier " + impl[:300].replace(" ", "_")
     if not impl.startswith("ok "):
         return "ok"                                   # rejected / untranslatable input: nothing was emitted
     v = model.strip()
@@ -273,6 +281,6 @@ MANIFEST = {
             "with the carried columns, the lowered conjuncts over the new relationship / node (ChainB.bStep1 / bStep2: they bind because the frame's FROM shows the columns of e_i and n_(i+1)) and the `!=` guards, final projection over the last frame: ChainB.tr_wellScopedCh); c03_partial_S4 : forall flipOf flipCh fast prune, C03_for (C01.tr4F flipOf flipCh fast prune) adds stage S1c, the two "
             "count statements (fast path / node frame, with or without alias: CountB.tr_wellScopedCount); c03_partial_S5 adds stage S2n, count(x) over a hop frame "
             "(CountHopB.tr_wellScopedCountHop); c03_partial_S6 : forall flipOf flipCh flipN fast prune push, C03_for (C01.tr6F ...) adds stage S2L, the hop statement with a LIMIT literal on the statement and — limit pushdown — "
-            "on the frame s0 (Hop.tr_wellScoped2L: a LIMIT literal binds in every scope); c03_partial_S7 adds stage S3a, ONE WITH between a node MATCH and the RETURN with plain items — the nested statement `with s0 as (with s1 as (<node frame>) select <WITH items> from s1) select <RETURN items> from s0` (WithB.tr_wellScopedWith). The FRAME HAND-OVER discipline it establishes: s1 is visible only inside the definition of s0 (bHandOver binds s0's query where NO frame is visible yet); the WITH items read s1.n0 only (bWItems); the final select reads s0 only and every column it reads is exported by exactly one WITH item with the type that item exports (bWcol via bColTy_idx: column names distinct) — a node name may be dereferenced (.id / .properties), a value name may not. A stage statement that references s0 inside s0's own definition is therefore outside the model: that is the known defect `with n, n as m` of the real translator (key ...:variable-carried-then-renamed-in-one-with, repair hooks/C03-fix1.patch); the same theorem covers stage S3b, a hop from the carried node AFTER the WITH (`with s0 as (<hand-over of n>), s2 as (<step frame: from s0 join edge e0 ... join node n1 ...>) select ... from s2`, WithHopB.tr_wellScopedWithHop: the step frame reads s0 and the base tables only — bStep0 binds it in the scope that knows s0 and NOT s1 —, the final select reads s2 only); c03_partial_S8 adds stage S1o, the S1 statement with `order by ((s0.n0).properties -> 'k') [desc] [offset i] [limit j]` (tr_wellScopedOrd: the sort expression is not a bare name and binds in the scope of the select's FROM); c03_partial_S9 adds stage S1d, the S1 statement with `select distinct` (tr_wellScopedDist); c03_partial_S10 adds stage S2x, a hop whose WHERE compares a property of a with a property of b (CrossB.tr_wellScopedX; model translator tr10F): the two-variable conjuncts and the conjuncts over b are bound in the frame's WHERE, where e0, n0 and n1 are all visible in either join order (bFrame2G: the WHERE is an arbitrary expression that binds under ColsAt for the three aliases; the join condition of n1 holds its kind constraint only, which reads n1 and e0): the statement passes the binder (wellScoped = true) under the schema with the empty parameter list. C03_full (the same for a total translator) is a visible, undischarged Prop.",
+            "on the frame s0 (Hop.tr_wellScoped2L: a LIMIT literal binds in every scope); c03_partial_S7 adds stage S3a, ONE WITH between a node MATCH and the RETURN with plain items — the nested statement `with s0 as (with s1 as (<node frame>) select <WITH items> from s1) select <RETURN items> from s0` (WithB.tr_wellScopedWith). The FRAME HAND-OVER discipline it establishes: s1 is visible only inside the definition of s0 (bHandOver binds s0's query where NO frame is visible yet); the WITH items read s1.n0 only (bWItems); the final select reads s0 only and every column it reads is exported by exactly one WITH item with the type that item exports (bWcol via bColTy_idx: column names distinct) — a node name may be dereferenced (.id / .properties), a value name may not. A stage statement that references s0 inside s0's own definition is therefore outside the model: that is the known defect `with n, n as m` of the real translator (key ...:variable-carried-then-renamed-in-one-with, repair hooks/C03-fix1.patch); the same theorem covers stage S3b, a hop from the carried node AFTER the WITH (`with s0 as (<hand-over of n>), s2 as (<step frame: from s0 join edge e0 ... join node n1 ...>) select ... from s2`, WithHopB.tr_wellScopedWithHop: the step frame reads s0 and the base tables only — bStep0 binds it in the scope that knows s0 and NOT s1 —, the final select reads s2 only); c03_partial_S8 adds stage S1o, the S1 statement with `order by ((s0.n0).properties -> 'k') [desc] [offset i] [limit j]` (tr_wellScopedOrd: the sort expression is not a bare name and binds in the scope of the select's FROM); c03_partial_S9 adds stage S1d, the S1 statement with `select distinct` (tr_wellScopedDist); c03_partial_S10 adds stage S2x, a hop whose WHERE compares a property of a with a property of b (CrossB.tr_wellScopedX; model translator tr10F): the two-variable conjuncts and the conjuncts over b are bound in the frame's WHERE, where e0, n0 and n1 are all visible in either join order (bFrame2G: the WHERE is an arbitrary expression that binds under ColsAt for the three aliases; the join condition of n1 holds its kind constraint only, which reads n1 and e0): the statement passes the binder (wellScoped = true) under the schema with the empty parameter list. C03_full (the same for a total translator) is a visible, undischarged Prop. TEXT versus TREE (search, every translated query of suite c03; harness/identtie.go): the binder decides closedness on the statement TREE, PostgreSQL gets the TEXT; for identifiers that need quoting the two are tied — the multiset of quoted-identifier tokens of the text (harness/pglex.go, `\"\"` undone) must equal the multiset of names the tree's back-ticked identifiers denote, and the text must lex; otherwise the answer is `ident-differs` (key text-identifiers-differ-from-statement:quoted-identifier). Plain identifiers are written byte for byte. Family quoted-names: back-ticked aliases / variables holding a double quote, a backslash, a back-tick or a blank where the statement must name them again (ORDER BY an alias, names carried through WITH, variables read after their MATCH). The random generator also draws LIMIT / SKIP boundary values and property maps on variable-length patterns (harness/cygen.go); every non-ok verdict is keyed <symptom>:<sql site>:<query shape> with the shape taken from lib/cyshape.py — an unlisted shape is `unrecognised-query-shape`, never registered.",
     "note": "Not a proof about the Go translator: per-output validation. PostgreSQL's scoping rules are a trusted Lean transcription of the documentation (no server in the sandbox).",
 }
